@@ -1,7 +1,7 @@
 """C13 — the embedded (and served) spec is the input spec, byte for byte."""
-from . import core
+from . import core, servefam
 
-THEOREMS = ["Goag.Embed.embed_roundtrip"]
+THEOREMS = ["Goag.Embed.embed_roundtrip", "Goag.Serve.spec_served", "Goag.Serve.spec_only_when_installed"]
 TRUSTED = [
     "Lean 4.33.0 kernel; axioms propext, Classical.choice, Quot.sound only (audited by #print axioms)",
     "hand-written model Goag.Embed.encodeRaw of generator/files.go:encodeRawFileAsString, tied on every run by comparing the literal chain text and the go/constant value of the written spec_file.go with the model's output",
@@ -66,10 +66,16 @@ def check(ctx):
             elif not okmodel:
                 ctx.broken.append({"kind": "correspondence", "detail": "model and implementation differ on %s (%s): impl=%s/%s model=%s" % (cid, kind, expr[:80], out[:80], m)})
         stats["distinct_nontrivial"] = len(distinct)
+    # served half: GET <base>/<spec name> through the generated API (route facet)
+    rows, gens, meta, plans = servefam.run_facets(ctx, [("route", [], "route")])
+    sst = servefam.decide(ctx, "C13", rows, gens, plans, set())
+    spec_hits = sst["classes"].get("spec", 0)
     cov = dict(audit)
     cov.update({
+        "served_half": {"requests": sst["evaluations"], "spec_handler_answers": spec_hits, "agree_with_model": sst["agree_model"],
+                        "agree_with_reference": sst["agree_ref"], "packages": len([g for g in gens if g[1] == "ok"])},
         "trusted_base": TRUSTED,
-        "evaluations": stats["evaluations"],
+        "evaluations": stats["evaluations"] + sst["evaluations"],
         "distinct_nontrivial": stats.get("distinct_nontrivial", 0),
         "rule": "contents = exhaustive strings over {`,\",\\,LF,CR,$,a,U+FEFF} up to length 3 (quick) / 4 (thorough) + seeded longer samples, fixture specs as YAML / CRLF / no trailing newline / BOM / one-line JSON (+ backslash-laden description), random UTF-8 text, malformed stream; non-trivial = longer than 2 bytes and containing a quoting-relevant byte; distinct by content",
         "samples": samples,
